@@ -663,6 +663,62 @@ def div_q_ui (dir : Int) (quot dividend divisor : Nat) (s : St) : R (Nat × St) 
     let qn := nn - (if top = 0 then 1 else 0)
     pure (rl, s.setSize quot (if ns ≥ 0 then (qn : Int) else -(qn : Int)))    -- :74
 
+/-- mpz_tdiv_r_ui / mpz_fdiv_r_ui (= mpz_mod_ui with a destination) / mpz_cdiv_r_ui (`dir` = 0 / -1 / 1): tdiv_r_ui.c:34-88,
+    fdiv_r_ui.c:34-98, cdiv_r_ui.c.  `PTR (rem)[0] = rl` is stored without a realloc ("no function ever makes zero
+    space", tdiv_r_ui.c:82-83): relies on ALLOC ≥ 1.  rem = dividend allowed: mpn_mod_1 has read the operand before. -/
+def div_r_ui (dir : Int) (rem dividend divisor : Nat) (s : St) : R (Nat × St) := do
+  if divisor = 0 then throw "div0"                            -- tdiv_r_ui.c:34-35
+  let ns := s.size dividend                                   -- :37
+  if ns = 0 then pure (0, s.setSize rem 0)                    -- :38-42
+  else
+    let nn := ns.natAbs                                       -- :44
+    let np := s.ptr dividend                                  -- :45
+    let n ← s.load np nn                                      -- :77 rl = mpn_mod_1 (np, nn, divisor)
+    let rl := val n % divisor
+    if rl = 0 then pure (0, s.setSize rem 0)                  -- :78-79
+    else
+      let adj : Bool := (dir = -1 ∧ ns < 0) ∨ (dir = 1 ∧ ns ≥ 0)   -- fdiv_r_ui.c:90 / cdiv_r_ui.c
+      let rl := if adj then divisor - rl else rl
+      let s ← s.storeAt (s.ptr rem) 0 [rl]                    -- :85 PTR(rem)[0] = rl
+      let sz : Int := if dir = 0 then (if ns ≥ 0 then 1 else -1) else if dir = -1 then 1 else -1   -- :84 / fdiv :94 / cdiv
+      pure (rl, s.setSize rem sz)
+
+/-- tdiv_qr_ui.c:92-96: `qn = nn - (qp[nn - 1] == 0); SIZ (quot) = ns >= 0 ? qn : -qn; return rl` -/
+def qrUiEnd (quot qp nn : Nat) (ns : Int) (rl : Nat) (s : St) : R (Nat × St) := do
+  let top ← limbAt s qp (nn - 1)
+  let qn := nn - (if top = 0 then 1 else 0)
+  pure (rl, s.setSize quot (if ns ≥ 0 then (qn : Int) else -(qn : Int)))
+
+/-- tdiv_qr_ui.c:89-90 (fdiv_qr_ui.c:102-103): `SIZ (rem) = ±1; PTR (rem)[0] = rl;`, then the end -/
+def qrUiRem (dir : Int) (quot rem qp nn : Nat) (ns : Int) (rl : Nat) (s : St) : R (Nat × St) := do
+  let s ← s.storeAt (s.ptr rem) 0 [rl]                        -- :90
+  let sz : Int := if dir = 0 then (if ns ≥ 0 then 1 else -1) else if dir = -1 then 1 else -1   -- :89
+  qrUiEnd quot qp nn ns rl (s.setSize rem sz)                 -- :92-96
+
+/-- mpz_tdiv_qr_ui / mpz_fdiv_qr_ui / mpz_cdiv_qr_ui (`dir` = 0 / -1 / 1): tdiv_qr_ui.c:35-98, fdiv_qr_ui.c:35-110,
+    cdiv_qr_ui.c.  quot ≠ rem; quot = dividend (quotient in place) or rem = dividend (`PTR (rem)[0] = rl` lands on the
+    operand after mpn_divrem_1 has read it) allowed. -/
+def div_qr_ui (dir : Int) (quot rem dividend divisor : Nat) (s : St) : R (Nat × St) := do
+  if divisor = 0 then throw "div0"                            -- tdiv_qr_ui.c:35-36
+  let ns := s.size dividend                                   -- :38
+  if ns = 0 then pure (0, (s.setSize quot 0).setSize rem 0)   -- :39-44
+  else
+    let nn := ns.natAbs                                       -- :46
+    let s := s.mpzRealloc quot nn                             -- :47
+    let qp := s.ptr quot                                      -- :48
+    let np := s.ptr dividend                                  -- :49
+    let r ← mpn_divrem_1 qp np nn divisor s                   -- :81
+    if r.1 = 0 then qrUiEnd quot qp nn ns 0 (r.2.setSize rem 0)              -- :82-83, :92-96
+    else do
+      let adj : Bool := (dir = -1 ∧ ns < 0) ∨ (dir = 1 ∧ ns ≥ 0)             -- fdiv_qr_ui.c:96 / cdiv_qr_ui.c:96
+      let (rl, s) ← (if adj then do
+          let l ← r.2.load qp nn                              -- fdiv_qr_ui.c:98 mpn_incr_u (qp, 1)
+          if val l + 1 ≥ B ^ nn then throw "ub:mpn_incr_u runs off the quotient"
+          let s ← r.2.store qp (toLimbs nn (val l + 1))
+          pure (divisor - r.1, s)                             -- :99
+        else pure (r.1, r.2))
+      qrUiRem dir quot rem qp nn ns rl s                      -- tdiv_qr_ui.c:89-96
+
 /-! ## mpz_and, mpz_ior, mpz_xor, mpz_com: pointers fetched early, re-read after the reallocation -/
 
 /-- what a sign case of and.c / ior.c / xor.c does before its limb loops: which operands were replaced by a TMP copy
